@@ -145,10 +145,17 @@ func (m MethodScope) populateImports(t types.Type, imports map[string]*Package) 
 // conflict with any of the existing vars.
 func (m MethodScope) resolveImportVarConflicts(imports map[string]*Package) {
 	// Ensure that all the newly added imports do not conflict with any of the
-	// existing vars.
-	for _, imprt := range imports {
-		if v, ok := m.searchVar(imprt.Qualifier()); ok {
-			v.Name += "MoqParam"
+	// existing vars. A renamed var can run into another of the imports (var
+	// "foo" with packages "foo" and "fooMoqParam"), so repeat until nothing
+	// is renamed any more: the result must not depend on the iteration order
+	// of the map.
+	for renamed := true; renamed; {
+		renamed = false
+		for _, imprt := range imports {
+			if v, ok := m.searchVar(imprt.Qualifier()); ok {
+				v.Name += "MoqParam"
+				renamed = true
+			}
 		}
 	}
 }
